@@ -20,13 +20,15 @@ void *vp_heap_alloc(uint64_t n) { return malloc(n ? n : 1); }
 void vp_heap_free(void *p) { free(p); }
 #else
 /* constant-capacity block, logical size in a side table (see vp_rt.h) */
-uint64_t vp_blk_size[1 << VP_OBJECT_BITS];
+const void *vp_blk_base[VP_MAX_BLOCKS]; uint64_t vp_blk_len[VP_MAX_BLOCKS]; int vp_blk_n;
 void *vp_heap_alloc(uint64_t n) {
   VP_ASSERT(n <= VP_HEAP_CAP, "oversized allocation request");
   VP_ASSUME(n <= VP_HEAP_CAP);
   uint8_t *b = malloc(VP_HEAP_CAP);
   VP_ASSUME(b != 0);
-  vp_blk_size[__CPROVER_POINTER_OBJECT(b) & ((1 << VP_OBJECT_BITS) - 1)] = n;
+  VP_ASSERT(vp_blk_n < VP_MAX_BLOCKS, "more heap blocks than the access model tracks (harness bound VP_MAX_BLOCKS)");
+  VP_ASSUME(vp_blk_n < VP_MAX_BLOCKS);
+  vp_blk_base[vp_blk_n] = b; vp_blk_len[vp_blk_n] = n; vp_blk_n++;
   return b;
 }
 void vp_heap_free(void *p) {
